@@ -181,6 +181,21 @@ fn memory_level<M: GuestMemory>(r: &Run, m: &M, l: &Layout) {
                 let mut s: &mut [u8] = &mut [];
                 let _ = m.write_volatile_to(ga, &mut s, c);
             });
+            // sinks in the states a program may leave them in: a cursor over a byte buffer at its
+            // end, one past it and far past it; a cursor over a source at u64::MAX
+            r.call("write_volatile_to(cursor sink at / past its end)", a, cu, 3, || {
+                for pos in [5u64, 6, 9, u64::MAX] {
+                    let mut sink = [0u8; 5];
+                    let mut cur = std::io::Cursor::new(&mut sink[..]);
+                    cur.set_position(pos);
+                    let _ = m.write_volatile_to(ga, &mut cur, c);
+                    let _ = m.write_all_volatile_to(ga, &mut cur, c);
+                    let mut src = std::io::Cursor::new(&src_data[..5]);
+                    src.set_position(pos);
+                    let _ = m.read_volatile_from(ga, &mut src, c);
+                    let _ = m.read_exact_volatile_from(ga, &mut src, c);
+                }
+            });
             r.call("read_exact_volatile_from", a, cu, 0, || {
                 let mut src: &[u8] = &src_data;
                 let _ = m.read_exact_volatile_from(ga, &mut src, c);
